@@ -62,6 +62,9 @@ def gen_graph(seed, idx, max_files=6):
                     relp = "./" + relp
                 pad = r.choice(["", "  ", "\t"])
                 lines.append(f"{pad}@include {relp}" + r.choice(["", " ", "", "", " // part two", "  // see notes.bard", " //x"]))
+            elif k < 0.93 and r.random() < 0.5:
+                # a Python block whose closer carries a comment, in a file that goes on including
+                lines += r.choice([["@py:", "x = 1", "@endpy // done"], ["<<py", "y = 2", ">> // end"], ["@py:", "z = 3", "@endpy"]])
             elif k < 0.93:
                 lines.append("@include")
             elif k < 0.95:
@@ -405,6 +408,9 @@ HISTORIES = [
     ("two stories compiled to the same output file, and back",
      [({"main.bard": ":: Start\nmain story\n+ [go] -> A\n@include a.bard\n", "a.bard": ":: A\nA of main\n", "other.bard": ":: Start\nother story\n"}, "main.bard"),
       ({}, "other.bard"), ({}, "main.bard"), ({}, "other.bard")]),
+    ("includes below Python blocks whose closers carry comments",
+     [({"main.bard": ":: Start\nHi\n@py:\nx = 1\n@endpy // done\n+ [go] -> A\n@include a.bard\n",
+        "a.bard": ":: A\nA\n<<py\ny = 2\n>> // end\n+ [go] -> B\n@include sub/b.bard\n", "sub/b.bard": ":: B\nB\n@py: // note\nz = 3\n@endpy   // x\n@include ../c.bard\n", "c.bard": ":: C\nC\n"}, "main.bard")]),
     ("a diamond after a failure",
      [({"main.bard": ":: Start\nHi\n@include l.bard\n@include r.bard\n", "l.bard": ":: L\nl\n@include nope.bard\n", "r.bard": ":: R\nr\n"}, "main.bard"),
       ({"l.bard": ":: L\nl\n"}, "main.bard")]),
